@@ -29,3 +29,12 @@ PROPS = {
         explanation='C19: every conversion wrapper is interpreted from source through validate_args, convert_bases, handle_places, handle_number, conversion, pad_zeroes for ALL integers / digit strings / places values (unbounded) per argument class.',
     ),
 }
+
+PROPS['C09'] = dict(
+    unit_modules=['contracts.c09_order'], driver_modules=['drivers.c09'], level='proof',
+    level_text='The real OP_LT/OP_GT/OP_LE/OP_GE/OP_EQ/OP_NE, ExcelType rich comparisons, every _sort_key override and tuple comparison are interpreted from source for ALL values of every ordered class pair (and triple) of Number[int], Number[float], Text, Boolean, DateTime: each operator equals the statement\'s order on (type rank, value) keys, and trichotomy, <=, >=, <>, converse and transitivity are proved directly on the real code; the four blank clauses in both operand orders. 810 obligations, unbounded in the values.',
+    level_note='Trusted: str.upper as an uninterpreted function (the laws hold for any such function; axioms natively tested); datetime arithmetic on whole days modelled exactly (ordinals), dates restricted to whole days 1900-01-01..9999-12-31; floats as reals; pyvc interpreter (CPython cross-check + canary per unit); z3. Known finding KF-C09-1 (OP_EQ/OP_NE on two native Python operands, pinned by an existing test) lies outside the proved domain (Excel value objects / formulas).',
+    trusted_base=['intrinsic axioms of the uninterpreted builtins (pyvc/models.py UF_AXIOMS), natively tested on every run', 'pyvc/models_datetime.py: exact ordinal arithmetic of datetime/timedelta on whole days'],
+    assumptions=COMMON_ASSUMPTIONS, job_limit_s=120,
+    explanation='C09: per-operator contracts + the order laws proved on the real code per class pair/triple; bounded layer runs the same laws over a 24-value pool through formulas and native library calls.',
+)
